@@ -24,8 +24,12 @@ def _mk_job(bars, emb, rng, extra_degrees=True, trailing_inf=False):
     tick_dgms = [[list(x) for x in order]]
     if extra_degrees:
         other = [[emb.f(0), emb.f(2)], [emb.f(2), emb.f(6)]]
-        pos = rng.randrange(3)
-        if pos == 1:
+        pos = rng.randrange(5)
+        if pos == 3:    # an EMPTY diagram (a degree without classes) below the requested degree
+            dgms, tick_dgms, hom = [other, [], dgm], [[[0, 2], [2, 6]], [], tick_dgms[0]], 2
+        elif pos == 4:
+            dgms, tick_dgms, hom = [[], dgm, other], [[], tick_dgms[0], [[0, 2], [2, 6]]], 1
+        elif pos == 1:
             dgms, tick_dgms, hom = [other, dgm], [[[0, 2], [2, 6]], tick_dgms[0]], 1
         elif pos == 2:
             dgms, tick_dgms, hom = [dgm, other], [tick_dgms[0], [[0, 2], [2, 6]]], 0
